@@ -244,7 +244,7 @@ def gen_ifc_design(rng):
        f"      if s.{child_ifc}.{pin1}: s.{child_ifc}.{pout} @= s.{child_ifc}.{pin0} + K",
        f"      else: s.{child_ifc}.{pout} @= s.{child_ifc}.{pin0} ^ K"]
   nl = rng.randrange(1, 3)
-  kid_scalar = rng.choice(["c", "cs", "kid", "u"])
+  kid_scalar = rng.choice(["c", "cs", "kid", "u", "s", "top"])          # a child may be called like the top's own handle
   kid_list = rng.choice([n for n in ["kids", "ks", "cs", "us_"] if n != kid_scalar])
   L += ["class Top(Component):", "  def construct(s):", f"    s.{top_scalar} = XI({W})",
         f"    s.{top_list} = [XI({W}) for _ in range({nl})]",
